@@ -229,6 +229,14 @@ def make_wall(w, mirror=False):
         tip = float(w.get("tip", 1.64))
         zb = float(w.get("zb", -0.40))
         pts = [(1.2, -0.5), (1.8, -0.5), (1.8, zb - 0.02), (tip, zb), (1.8, zb + 0.02), (1.8, 0.5), (1.2, 0.5)]
+    elif kind == "nose":
+        # box with a blunt inboard nose that every flux surface of the inner lower leg crosses before
+        # it reaches the floor (nose face, nose underside, floor: three wall crossings). The gap under
+        # the nose is thin, so the guard cells beyond the target stay inside the nose.
+        tip = float(w.get("tip", 1.40))
+        ztop = float(w.get("ztop", -0.34))
+        zbot = float(w.get("zbot", -0.485))
+        pts = [(1.2, -0.5), (1.8, -0.5), (1.8, 0.5), (1.2, 0.5), (1.2, ztop + 0.02), (tip, ztop), (tip, zbot), (1.2, zbot)]
     elif kind == "poly":
         n = int(w.get("n", 16))
         ph = float(w.get("phase", 0.1))
